@@ -9,6 +9,17 @@ use crate::p03::first_jdn;
 
 pub fn exec(_op: &str, _a: &[i64]) -> Option<Option<String>> { None }
 
+/// signed month number of the lunation, followed by `!day=<n>` when the first and the last day of the lunation, reached through
+/// their civil dates, report another month number (LunarDay::get_month must carry the leap sign of its lunation)
+fn tag(m: &LunarMonth) -> String {
+  let mwl = m.get_month_with_leap();
+  for q in [first_jdn(m), first_jdn(m) + m.get_day_count() as i64 - 1] {
+    let dm = JulianDay::from_julian_day(q as f64).get_solar_day().get_lunar_day().get_month();
+    if dm != mwl { return format!("{}!day={}", mwl, dm); }
+  }
+  format!("{}", mwl)
+}
+
 fn contains(m: &LunarMonth, q: i64) -> bool { first_jdn(m) <= q && q < first_jdn(m) + m.get_day_count() as i64 }
 
 /// lunar month containing day number q (through the civil date of q)
@@ -32,11 +43,11 @@ pub fn run_enum(name: &str, _args: &[String], w: &mut dyn Write) -> bool {
           let q12 = SolarTerm::from_index(y as isize + 1, 0).get_cursory_julian_day() as i64 + 2451545;
           let mut m = month_of(q0);
           if !contains(&m, q0) { return Some("solstice-not-in-month".to_string()); }
-          let mut s = format!("{}", m.get_month_with_leap());
+          let mut s = tag(&m);
           let mut n = 0;
           while !contains(&m, q12) {
             m = m.next(1);
-            s.push_str(&format!(" {}", m.get_month_with_leap()));
+            s.push_str(&format!(" {}", tag(&m)));
             n += 1;
             if n > 15 { return Some(format!("{} ...runaway", s)); }
           }
